@@ -165,6 +165,7 @@ func runWorker(bin string, j job, dir string) (*WorkerOut, []raceReport, error) 
 var evLetter = map[string]byte{
 	"utxo.save:begin": 'b', "utxo.save:finito": 'f', "utxo.commit:before-commit": 'm',
 	"chain.commit:after-utxo": 'e', "chain.parse:after-utxo": 'e',
+	"utxo.undo:before-mutation": 'm', "chain.undo:after-utxo": 'e', // UndoBlockTxs: same monitor events as a commit
 	"utxo.save.file:created": 'c', "utxo.save.file:renamed": 'd', "utxo.save.file:abort-removed": 'd',
 }
 
@@ -177,6 +178,9 @@ func judge(o *vlib.Oracle, j job, wo *WorkerOut, races []raceReport) {
 		for i := 0; i < v; i++ {
 			r.Hit(k)
 		}
+	}
+	if n := wo.Hist["commit:update-keys-COLLIDE"]; n > 0 {
+		r.TieFail("nodup-hypothesis", fmt.Sprintf("%d block(s) of the scenario create or spend two transactions whose txids share the first 8 bytes: the hypothesis Nodup of disjoint_updates_commute does not hold for them", n), rp)
 	}
 	for i, op := range wo.Ops {
 		if i >= 108 && i < 114 {
@@ -225,7 +229,10 @@ func judge(o *vlib.Oracle, j job, wo *WorkerOut, races []raceReport) {
 	for _, s := range wo.Snaps {
 		key := fmt.Sprint(j.Seed, j.Shard, s.Cfg, s.Where, s.Hash, s.Dump)
 		if strings.HasPrefix(s.Err, "unreadable") && s.Where == "renamed" {
+			// the hook runs inside the file goroutine right after its rename; the next save() cannot start before that goroutine is
+			// done (lastFileClosed), so nothing can have moved the file away - if it is unreadable the tie lost its observation
 			r.Hit("snapshot:moved-away-before-read")
+			r.TieFail("snapshot-unobserved", fmt.Sprintf("UTXO.db could not be read at utxo.save.file:renamed under schedule %s: %s", s.Cfg, s.Err), map[string]interface{}{"job": j, "snapshot": s})
 			continue
 		}
 		r.Eval("snapshot:"+s.Where, key)
@@ -321,7 +328,7 @@ func judge(o *vlib.Oracle, j job, wo *WorkerOut, races []raceReport) {
 // exploreModel drives the Lean snapshot-protocol model through random programs and schedules.
 func exploreModel(o *vlib.Oracle, n int) {
 	g := r.Rng.Fork()
-	mops, xops := "ciahsc", "ha"
+	mops, xops := "ciahscup", "ha"
 	labs := "mmmmxxsssssAHfffE123"
 	for i := 0; i < n; i++ {
 		var mp, xp, ls strings.Builder
@@ -382,7 +389,8 @@ func main() {
 	defer o.Close()
 	r.Assume = []string{
 		"UnspentDB.Save/Idle/Close/CommitBlockTxs/UndoBlockTxs are called from one goroutine (gocoin's main loop); other goroutines only call HurryUp and AbortWriting — a direct Save() (no db.Mutex) racing a commit on ANOTHER goroutine is outside the model: abortWriting could then pass writingDone.Wait before Save's Add(1)",
-		"os.Create of the snapshot file succeeds (on failure the file goroutine returns without lastFileClosed.Done and Close would wait for ever)",
+		"os.Create of the snapshot file succeeds in the MODEL; on the real code a failing os.Create is exercised by the directed scenario createfail (fix 881f68ff: the file goroutine now drains the channels and reports the file closed; before, the next save() parked in lastFileClosed.Wait and the next CommitBlockTxs hung holding db.Mutex)",
+		"UnspentDB.commit: the add/delete workers of one block touch pairwise different map keys - the map key is the first 8 bytes of the txid (UtxoKeyType), so this ASSUMES that no two transactions created or spent by one block share their first 8 txid bytes (hypothesis Nodup of disjoint_updates_commute; a collision needs about 2^32 work; checked on every block of the scenarios run: histogram commit:update-keys-distinct)",
 		"memory-level data races are observed only through the Go race detector on the schedules that were run",
 	}
 	rep := o.MustAsk("facts")
